@@ -6,4 +6,5 @@ export CARGO_NET_OFFLINE=true
 mkdir -p target evidence
 (cd engine && cargo build --release --offline)
 cargo build --offline --manifest-path /repo/Cargo.toml --target-dir "$PWD/target/cli"
+"$PWD/target/engine/release/engine" selftest 2
 echo "setup ok"
